@@ -224,6 +224,21 @@ def audit_axioms(pid: str, modules: List[str], theorems: List[str]) -> Tuple[Dic
     with _Lock():
         p = subprocess.run(["lake", "env", "lean", path], cwd=LEAN, capture_output=True, text=True, timeout=1800)
     log = p.stdout + p.stderr
+    if len(modules) > 1 and "environment already contains" in log:
+        # two property modules of one check that cannot be imported into ONE file (their lemma files declare the
+        # same names: e.g. AcnProofs.C02 / AcnProofs.C02Json through Lemmas.EventCoreSim / Lemmas.ResumeRun): audit
+        # each module in a file of its own, with the theorems stated in it
+        log = ""
+        for k, m in enumerate(modules):
+            mine = [t for t in theorems_in(m) if t in theorems]
+            pk = os.path.join(d, f"{pid}_{k}.lean")
+            with open(pk, "w") as f:
+                f.write(f"import {m}\n")
+                for t in mine:
+                    f.write(f"#print axioms {t}\n")
+            with _Lock():
+                q = subprocess.run(["lake", "env", "lean", pk], cwd=LEAN, capture_output=True, text=True, timeout=1800)
+            log += q.stdout + q.stderr
     res: Dict[str, List[str]] = {}
     for m in _AX1.finditer(log):
         res[m.group(1)] = [a.strip() for a in m.group(2).replace("\n", " ").split(",") if a.strip()]
